@@ -33,7 +33,7 @@ UNITS.update({
         region=dict(start=r'NDSize\s+offset\(data\.dataExtent\(\)\.size\(\),\s*0\);\s*offset\[0\]', end=r'views\.push_back\(io\);(?=\s*\}\s*\}\s*else)',
                     params=[('const DataArray &', 'data'), ('const std::vector<ndsize_t> &', 'position_indices'), ('size_t', 'idx'), ('vec_DataView &', 'views')])),
 })
-EXTRA = ('opt_ndsize gh_ge; int gh_pushed;\nint gh_views; size_t gh_view_count_rank, gh_view_offset_rank; ndsize_t gh_view_count_k, gh_view_offset_k; const ndsize_t *gh_view_extent_dims;\n'
+EXTRA = ('opt_ndsize gh_ge; opt_pair gh_pair; double gh_pair_start, gh_pair_end; RangeMatch gh_pair_match; int gh_pair_calls; int gh_pushed;\nint gh_views; size_t gh_view_count_rank, gh_view_offset_rank; ndsize_t gh_view_count_k, gh_view_offset_k; const ndsize_t *gh_view_extent_dims;\n'
          'int gh_tagged_calls, gh_backend_feature_gets, gh_backend_reference_gets; ndsize_t gh_backend_get_index;\n')
 ACC = ['NDSize_size', 'NDSize_at', 'NDSize_bool', 'NDSize_allocate', 'NDSize_fill', 'NDSize_ctor_fill', 'NDSize_copy_ctor']
 JOBS = [dict(name='mtag_assemble_dim', bodies=['NDSize_size', 'NDSize_at', 'mtag_assemble_dim'], enforce=['mtag_assemble_dim'], replace=['positionToIndex_scalar'], extra_c=EXTRA,
